@@ -503,8 +503,8 @@ func (e Expect) checkDocs(o Op, got []types.Map) string {
 	all := e.Docs
 	lo := min(o.Skip, len(all))
 	hi := len(all)
-	if o.Limit > 0 {
-		hi = min(lo+o.Limit, len(all))
+	if o.Limit > 0 && o.Limit < len(all)-lo { // never lo+o.Limit: the options may be near math.MaxInt
+		hi = lo + o.Limit
 	}
 	want := all[lo:hi]
 	render := func(ds []types.Map) string { return strings.Join(encDocs(ds), " | ") }
